@@ -6,7 +6,8 @@
 // Casketfile of the type:
 //
 //	g<gen> {
-//	    verifcfg <n> <fail>      # n servers; fail in none|setup|startupcb|listen
+//	    verifcfg <n> <fail> [nofile]   # n servers; fail in none|setup|startupcb|listen|panic;
+//	                                   # nofile: the listeners cannot be handed over (no File())
 //	}
 package faketype
 
@@ -71,6 +72,8 @@ var (
 	GracefulByDefault = true
 	// CbDelay makes every callback take this long (widens the windows in which signals overlap)
 	CbDelay time.Duration
+	// CbHook, if set, runs inside every callback after its event was recorded
+	CbHook func(gen int, kind string)
 )
 
 func SetRestartCbFails(v bool) { knobMu.Lock(); restartCbFails = v; knobMu.Unlock() }
@@ -83,9 +86,10 @@ func takeRestartCbFails() bool {
 }
 
 type cfg struct {
-	gen  int
-	n    int
-	fail string
+	gen    int
+	n      int
+	fail   string
+	nofile bool
 }
 
 type fctx struct {
@@ -101,7 +105,7 @@ func (c *fctx) MakeServers() ([]casket.Server, error) {
 	var out []casket.Server
 	for _, cf := range c.cfgs {
 		for k := 1; k <= cf.n; k++ {
-			out = append(out, &Server{Gen: cf.gen, K: k, failListen: cf.fail == "listen", stopCh: make(chan struct{})})
+			out = append(out, &Server{Gen: cf.gen, K: k, failListen: cf.fail == "listen", noFile: cf.nofile, stopCh: make(chan struct{})})
 		}
 	}
 	return out, nil
@@ -124,6 +128,10 @@ func setup(c *casket.Controller) error {
 	cf := &cfg{gen: gen, n: 1, fail: "none"}
 	for c.Next() {
 		args := c.RemainingArgs()
+		if len(args) == 3 && args[2] == "nofile" {
+			cf.nofile = true
+			args = args[:2]
+		}
 		if len(args) != 2 {
 			return c.ArgErr()
 		}
@@ -132,6 +140,11 @@ func setup(c *casket.Controller) error {
 			return c.Err("bad n")
 		}
 		cf.fail = args[1]
+	}
+	if cf.fail == "panic" {
+		Rec.Emit(Event{Ev: "setup", G: gen, Res: "err"})
+		var m map[string]int
+		m["scripted setup panic"] = 1 // a runtime panic inside a directive's setup function
 	}
 	if cf.fail == "setup" {
 		Rec.Emit(Event{Ev: "setup", G: gen, Res: "err"})
@@ -148,6 +161,9 @@ func setup(c *casket.Controller) error {
 				res = "err"
 			}
 			Rec.Emit(Event{Ev: "cb", G: gen, Kind: kind, Res: res})
+			if CbHook != nil {
+				CbHook(gen, kind)
+			}
 			if CbDelay > 0 {
 				time.Sleep(CbDelay)
 			}
@@ -171,6 +187,7 @@ func setup(c *casket.Controller) error {
 type Server struct {
 	Gen, K     int
 	failListen bool
+	noFile     bool // the listener handed to casket hides File(): a reload cannot inherit it
 	stopCh     chan struct{}
 	once       sync.Once
 	mu         sync.Mutex
@@ -192,14 +209,23 @@ func (s *Server) Listen() (net.Listener, error) {
 	s.mu.Lock()
 	s.ln = ln
 	s.mu.Unlock()
+	if s.noFile {
+		return plainListener{ln}, nil
+	}
 	return ln.(*net.TCPListener), nil // *net.TCPListener implements casket.Listener (File())
 }
+
+// plainListener is a net.Listener that is not a casket.Listener.
+type plainListener struct{ net.Listener }
 
 func (s *Server) WrapListener(ln net.Listener) net.Listener {
 	Rec.Emit(Event{Ev: "inherit", G: s.Gen, K: s.K})
 	s.mu.Lock()
 	s.ln = ln
 	s.mu.Unlock()
+	if s.noFile {
+		return plainListener{ln}
+	}
 	return ln
 }
 
@@ -238,9 +264,12 @@ func (s *Server) Stop() error {
 var DrainTime = 300 * time.Microsecond
 
 // Input renders the Casketfile of generation gen.
-func Input(gen, n int, fail string) casket.Input {
+func Input(gen, n int, fail string, file bool) casket.Input {
 	if fail == "restartcb" {
 		fail = "none"
+	}
+	if !file {
+		fail += " nofile"
 	}
 	txt := fmt.Sprintf("g%d {\n\tverifcfg %d %s\n}\n", gen, n, fail)
 	return casket.CasketfileInput{Contents: []byte(txt), Filepath: "verif", ServerTypeName: "verif"}
